@@ -30,6 +30,48 @@ fn compaction_happened(s: &Stats) -> bool {
     s.get("c.merge") + s.get("m.major") + s.get("m.pulldown") > 0
 }
 
+/// Directed prefix for a quarter of the C08 / C09 cases: one blob file shared by many small tables of the
+/// last level, then repeated "overwrite, flush, push down level by level" rounds, so that partial merges at
+/// the last level meet a stale blob file that tables outside the merge still reference (the guard in
+/// `pick_blob_files_to_rewrite`), relocation happens in partial compactions, and garbage is recorded by
+/// several compactions for the same file. The generated ops follow the prefix.
+fn relocation_prefix(c: &mut crate::spec::Case) {
+    use crate::spec::Op;
+    if c.keys.len() % 4 != 1 || c.keys.len() < 6 {
+        return;
+    }
+    let h = crate::util::fnv(&c.keys[0]);
+    for cfg in c.cfgs.iter_mut() {
+        if let Some(b) = cfg.blob.as_mut() {
+            b.threshold = 1;
+            b.target = 64 << 20;
+            b.staleness = 0.000_001;
+            b.age_cutoff = 1.0;
+        }
+    }
+    let mut pre = vec![
+        Op::Fill { start: 0, n: c.keys.len() as u16, len: 0, del: false, one_seqno: h % 2 == 0 },
+        Op::FlushActive { wm: u16::MAX },
+        // split into many tiny tables in the last level, all pointing into the one blob file
+        Op::Major { target_log2: 5 + (h % 3) as u8, wm: u16::MAX },
+    ];
+    let rounds = 2 + (h / 7) % 3;
+    for r in 0..rounds {
+        // overwrite (or delete) one or two neighbouring keys of the same region
+        let k = (((h >> 8) + r * 1111) % 20_000) as u16;
+        pre.push(Op::Insert { k, len: 0 });
+        if (h >> 5) % 2 == 0 {
+            pre.push(Op::Remove { k: k.saturating_add(3000) });
+        }
+        pre.push(Op::FlushActive { wm: u16::MAX });
+        for _ in 0..6 {
+            pre.push(Op::Leveled { l0: 1, target_log2: (h % 3) as u8, ratio_x10: 10, wm: u16::MAX });
+        }
+    }
+    pre.append(&mut c.ops);
+    c.ops = pre;
+}
+
 const ASSUME_COMMON: [&str; 4] = [
     "usage protocol: seqnos from the tree's counter, snapshots = visible_seqno.get(), GC watermark strictly below every live snapshot",
     "MoveDown/PullDown only with a<b, empty intermediate levels, single-run source, destination disjoint (the way tests and benches use them)",
@@ -365,7 +407,7 @@ pub fn spec(id: &str) -> Option<CheckSpec> {
                 assumptions: ASSUME_COMMON.to_vec(),
                 finale: None,
                 per_op: None,
-                prepare: None,
+                prepare: Some(relocation_prefix),
             })
         }
         "C09" => {
@@ -401,6 +443,7 @@ pub fn spec(id: &str) -> Option<CheckSpec> {
                     if c.keys.len() % 2 == 0 {
                         c.verdicts.clear();
                     }
+                    relocation_prefix(c);
                 }),
             })
         }
